@@ -158,6 +158,10 @@ func init() {
 		fr.i.waitAll()
 		return nil
 	}
+	symAPI["Stamp"] = func(fr *frame, args []value) value {
+		fr.i.run.stamp++
+		return fr.i.run.stamp
+	}
 	symAPI["Yield"] = func(fr *frame, args []value) value {
 		fr.i.yield("yield")
 		return nil
